@@ -39,11 +39,11 @@ PROP = 'C14'
 TIERS = {
     # exhaustive: Enumerate() arguments; sampled: (n, count)
     'quick': dict(
-        exhaustive=[dict(min_n=1, max_n=3, max_groups=1, max_reps=3,
+        exhaustive=[dict(min_n=1, max_n=3, max_groups=1, max_reps=2,
                          timing=True)],
-        sampled=[(3, 500), (4, 1000), (5, 500)],
-        abstract_cap=1500, programs=16, stub_times=[1, 2, 3, 5],
-        runmany=4, shards=5,
+        sampled=[(3, 700), (4, 1100), (5, 700)],
+        abstract_cap=1200, programs=8, stub_times=[1, 2, 3, 5],
+        runmany=3, shards=5,
         enum_cfg='MCConcertinaEnum.cfg',
         enum_args=dict(min_n=1, max_n=3, min_reps=1, max_reps=2, max_groups=1,
                        max_len=2, timing=True)),
@@ -55,7 +55,7 @@ TIERS = {
                     dict(min_n=4, max_n=4, max_groups=1, max_reps=2,
                          timing=False)],
         sampled=[(3, 2000), (4, 8000), (5, 6000)],
-        abstract_cap=12000, programs=150, stub_times=[1, 2, 3, 4, 5, 7, 9],
+        abstract_cap=12000, programs=100, stub_times=[1, 2, 3, 4, 5, 7, 9],
         runmany=30, shards=14,
         enum_cfg='MCConcertinaEnum_thorough.cfg',
         enum_args=dict(min_n=1, max_n=3, min_reps=1, max_reps=2, max_groups=2,
@@ -283,7 +283,7 @@ def Run(tier):
   shaped = [(i, c) for i, c in hand if c14cfg.LowerHalfExternal(c)]
   info['hand_configs'] = len(hand)
   info['hand_exhaustive_part'] = n_exh
-  info['hand_finding_shape'] = len(shaped)
+  info['hand_lower_half_external_shape'] = len(shaped)
 
   # abstract spec: configurations modulo timing (it explores every timing)
   abs_seen = {}
@@ -321,14 +321,12 @@ def Run(tier):
 
   # ---- 2. the real code (fresh worker processes importing $LOGICA_REPO)
   from harness import c14run
-  hand_lines = common.ParallelMap(c14run.HandLine, hand, chunksize=64)
-  info['hand_wall'] = clock()
-  for part in Shard(hand_lines, t['shards']):
-    jobs.Submit('trh', 'ConcertinaTrace', 'ConcertinaTrace.cfg', part)
-
   rng = common.Rng('c14/programs/' + tier)
   cases = [c14run.GenProgram(rng, 'p%04d' % k, multi=(k % 4 == 0),
-                             orders=(3 if tier == 'quick' else 6))
+                             orders=(2 if tier == 'quick' else 4),
+                             two_iter=(k % 4 == 2),
+                             max_blocks=(2 if tier == 'quick' else 3),
+                             data=(True if k % 3 == 1 else None))
            for k in range(t['programs'])]
   cases.append(c14run.ThreeRequestsCase())
   case_by_id = {c['id']: c for c in cases}
@@ -345,7 +343,16 @@ def Run(tier):
   tasks += [{'kind': 'runmany', 'case': c}
             for c in plain_cases[:t['runmany']]]
   tasks += [{'kind': 'stub', 'case': c} for c in stub_cases]
+  # the hand-made configurations share the pool (compiled tasks first: they
+  # are the long ones)
+  tasks += [{'kind': 'hand', 'items': hand[k:k + 100]}
+            for k in range(0, len(hand), 100)]
   out1 = common.ParallelMap(c14run.RunTask, tasks, chunksize=1)
+  hand_lines = [l for tk, r in zip(tasks, out1) if tk['kind'] == 'hand'
+                for l in r]
+  info['hand_wall'] = clock()
+  for part in Shard(hand_lines, t['shards']):
+    jobs.Submit('trh', 'ConcertinaTrace', 'ConcertinaTrace.cfg', part)
   prog_lines = [r for tk, r in zip(tasks, out1) if tk['kind'] == 'subset']
   stub_lines = [r for tk, r in zip(tasks, out1) if tk['kind'] == 'stub']
   runmany_lines = []
@@ -433,7 +440,6 @@ def Run(tier):
     if not r.ok:
       machinery.append('configuration enumerator differs from '
                        'ConcertinaConfigs.tla: %s' % r.out[-1500:])
-  info['model_reproduces_finding'] = model_reproduces
 
   # ---- 4. verdicts on the real code
   vh, covh, s1, t1, e1 = Verdicts(jobs.Results('trh'))
